@@ -4,6 +4,7 @@ C03 — Close is ordered after data and observed consistently by both sides.
 import ExecnetVerif.Proofs.Net.Wire
 import ExecnetVerif.Proofs.Net.Got
 import ExecnetVerif.Proofs.Net.Close
+import ExecnetVerif.Props.NetFine
 namespace ExecnetVerif
 open Net
 
